@@ -103,6 +103,8 @@ def _mk(ctx, N, D):
         believed[i] = v
         log[v] = _entry(v, FaultState.FAULT if i % 2 else FaultState.RESTORE)
     fl._map, fl._log = m, log
+    # a read-through (get_faultlog) may or may not be in progress while a packet is handled
+    fl._is_getting = symx.flag(ctx, "is_getting")
     return fl, C, states, believed
 
 
@@ -296,6 +298,7 @@ def replay(item):
                 v = ts(cex[f"M{i}"])
                 fl._map[i] = v
                 fl._log[v] = _entry(v, FaultState.FAULT if i % 2 else FaultState.RESTORE)
+        fl._is_getting = bool(cex.get("is_getting", False))
         before = dict(fl._map)
         if h == "step":
             idx = cex["idx"]
